@@ -140,6 +140,13 @@ module Pos =
   | Coq_xO n' -> iter f (iter f x n') n'
   | Coq_xH -> f x
 
+  (** val size : positive -> positive **)
+
+  let rec size = function
+  | Coq_xI p0 -> succ (size p0)
+  | Coq_xO p0 -> succ (size p0)
+  | Coq_xH -> Coq_xH
+
   (** val compare_cont : comparison -> positive -> positive -> comparison **)
 
   let rec compare_cont r x y =
